@@ -182,7 +182,7 @@ class HRLexer(Lexer):
             Rule(r"(str\.suffixof)", FunctionCallAdapter(self.mgr.StrSuffixOf, 100), False), # str_suffixof
             Rule(r"(str\.to\.int)", FunctionCallAdapter(self.mgr.StrToInt, 100), False), # str_to_int
             Rule(r"(int\.to\.str)", FunctionCallAdapter(self.mgr.IntToStr, 100), False), # int_to_str
-            Rule(r"'(.*?)'", self.identifier, True), # quoted identifiers
+            Rule(r"'(.*?)'", self.quoted_identifier, True), # quoted identifiers
             Rule(r"([A-Za-z_][A-Za-z0-9_]*)", self.identifier, True),# identifiers
             Rule(r"(.)", self.lexing_error, True), # input error
         ]
@@ -226,6 +226,10 @@ class HRLexer(Lexer):
         res = self._identifier_map.get(read, None)
         if res is not None:
             return res
+        return Identifier(read, env=self.env)
+
+    def quoted_identifier(self, read):
+        # A quoted name is always a symbol, never a word of the language
         return Identifier(read, env=self.env)
 
     def UMinusOrBvNeg(self, x):
